@@ -234,6 +234,14 @@ def parse_case(line):
 def gen_cases(ck):
     rng = ck.rng
     lines = []
+    # corpus: the witness of Refuted_C08.v (copy, then destroy the original) and
+    # its assignment / vector variants, on every kind of model
+    for combo in COMBOS_H:
+        for ops in (["N:0", "C:0", "D:0"], ["N:0", "N:1", "A:1:0", "D:0"], ["N:0", "P:0", "D:0", "P:1", "P:2", "E:0"],
+                    ["N:0", "M:0", "C:1", "D:1"]):
+            c = gen_header(rng, combo, for_history=True)
+            c["ops"] = ops
+            lines.append(case_line("H", c))
     nt = 60 if not ck.thorough else 1500
     nh = 25 if not ck.thorough else 500
     for combo in COMBOS_T:
@@ -271,12 +279,12 @@ def split_out(o):
 
 def parse_T_result(rt):
     """q ... t ... acc x fit x l ..."""
-    out = {"q": [], "t": [], "l": [], "acc": None, "fit": None}
+    out = {"q": [], "t": [], "l": [], "var": [], "acc": None, "fit": None}
     cur = None
     i = 0
     while i < len(rt):
         w = rt[i]
-        if w in ("q", "t", "l"):
+        if w in ("q", "t", "l", "var"):
             cur = w
         elif w in ("acc", "fit"):
             out[w] = rt[i + 1]
@@ -368,6 +376,11 @@ def oracle_T(c, otoks, rt):
             if R["fit"] != canon(want):
                 bad.append(("evaluator:%s:scores-another-function" % combo,
                             "evaluator fitness %s, the model's own tags on the training set give %s" % (R["fit"], canon(want))))
+    for h in R["var"]:
+        v = unhx(h)
+        if not (v != v or v >= 0.0):
+            bad.append(("gaussian:variance-negative", "per-class variance %r is neither NaN nor >= 0 "
+                        "(hypothesis of C08_gaussian_confidence_01_partial)" % v))
     if R["l"] and R["l"] != R["q"]:
         bad.append(("lambdify:%s:differs-from-direct-construction" % combo,
                     "lambdify'ed model answers %s, directly constructed model %s" % (R["l"], R["q"])))
@@ -460,6 +473,7 @@ def run(ck):
     vv.build_lib("asan")
     res = vv.prove("Properties_C08", vv.FLOCQ_AXIOMS)
     ck.add_proof(res)
+    ck.add_proof(vv.prove("Refuted_C08", set()))
     ck.trusted += ["coq/Lambda/LambdaDefs.v is a hand-written model (tie = correspondence only)",
                    "extraction: ExtrOcamlBasic only; ocaml/lambda_driver.ml + zutil.ml (libm atan/exp = OCaml Stdlib = glibc)",
                    "harness/h_lambda.cc (canonical printing, std::vector histories); g++ 12 ASan/UBSan as detector of "
